@@ -701,19 +701,19 @@ theorem mont_tail_lo0 (s : State) (pr pt pp inv : Word)
 set_option maxHeartbeats 1600000 in
 theorem mont_tail_hs0 (s : State) (pr pt pp inv : Word)
     (hr : Buf s pr 6 true) (ht : Buf s pt 12 false) (hp : Buf s pp 6 false)
-    (hstk : Stack s 4) (hrs : OffStack s 4 pr 6) (hts : OffStack s 4 pt 12) (hps : OffStack s 4 pp 6) {p0 p1 p2 p3 p4 p5 l176 l200 : Word} {t73 t106 t139 t172 t175 t184 t189 t194 t198 t199 t204 t205 t207 t225 t226 t227 t228 t229 t230 : ArithRes}
+    (hstk : Stack s 4) (hrs : OffStack s 4 pr 6) (hts : OffStack s 4 pt 12) (hps : OffStack s 4 pp 6) {p0 p1 p2 p3 p4 p5 l176 l200 : Word} {t73 t106 t139 t172 t175 t184 t189 t194 t198 t199 t204 t205 t207 t223 t226 t227 t228 t229 t230 : ArithRes}
     (ht208 : t208 = addWithCarry t207.val (~~~p5) true) (ht211 : t211 = addWithCarry t204.val (~~~p4) true)
     (ht214 : t214 = addWithCarry t199.val (~~~p3) true) (ht217 : t217 = addWithCarry t194.val (~~~p2) true)
     (ht220 : t220 = addWithCarry t189.val (~~~p1) true) (ht223 : t223 = addWithCarry t184.val (~~~p0) true)
-    (ht225 : t225 = addWithCarry t184.val (~~~p0) true) (ht226 : t226 = addWithCarry t189.val (~~~p1) t225.c)
-    (ht227 : t227 = addWithCarry t194.val (~~~p2) t226.c) (ht228 : t228 = addWithCarry t199.val (~~~p3) t227.c)
-    (ht229 : t229 = addWithCarry t204.val (~~~p4) t228.c) (ht230 : t230 = addWithCarry t207.val (~~~p5) t229.c)
-    (hb209 : (t208.c && !t208.z) = false) (hb210 : (!t208.c) = false) (hb212 : (t211.c && !t211.z) = false)
-    (hb213 : (!t211.c) = false) (hb215 : (t214.c && !t214.z) = false) (hb216 : (!t214.c) = false)
-    (hb218 : (t217.c && !t217.z) = false) (hb219 : (!t217.c) = false) (hb221 : (t220.c && !t220.z) = false)
-    (hb222 : (!t220.c) = false) (hb224 : (!t223.c) = false) :
+    (ht226 : t226 = addWithCarry t189.val (~~~p1) t223.c) (ht227 : t227 = addWithCarry t194.val (~~~p2) t226.c)
+    (ht228 : t228 = addWithCarry t199.val (~~~p3) t227.c) (ht229 : t229 = addWithCarry t204.val (~~~p4) t228.c)
+    (ht230 : t230 = addWithCarry t207.val (~~~p5) t229.c) (hb209 : (t208.c && !t208.z) = false)
+    (hb210 : (!t208.c) = false) (hb212 : (t211.c && !t211.z) = false) (hb213 : (!t211.c) = false)
+    (hb215 : (t214.c && !t214.z) = false) (hb216 : (!t214.c) = false) (hb218 : (t217.c && !t217.z) = false)
+    (hb219 : (!t217.c) = false) (hb221 : (t220.c && !t220.z) = false) (hb222 : (!t220.c) = false)
+    (hb224 : (!t223.c) = false) :
     run embedded_pairing_core_arch_aarch64_fpbase_384_montgomery_reduce ({ x0 := pr, x1 := l176, x2 := t175.val, x3 := inv, x4 := t73.val, x5 := t106.val, x6 := t139.val, x7 := t172.val, x8 := s.x8, x9 := t205.val, x10 := t184.val, x11 := t189.val, x12 := t194.val, x13 := t199.val, x14 := t204.val, x15 := t207.val, x16 := s.x16, x17 := s.x17, x18 := s.x18, x19 := p0, x20 := p1, x21 := p2, x22 := p3, x23 := p4, x24 := p5, x25 := t198.val, x26 := l200, x27 := s.x27, x28 := s.x28, x29 := s.x29, x30 := s.x30, sp := s.sp - 16#64 - 16#64 - 16#64 - 16#64, nf := some t207.n, zf := some t207.z, cf := some t207.c, vf := some t207.v, mem := setMem (setMem (setMem (setMem (setMem (setMem (setMem (setMem (s.mem) (s.sp.toNat - 16) s.x19) (s.sp.toNat - 16 + 8) s.x20) (s.sp.toNat - 16 - 16) s.x21) (s.sp.toNat - 16 - 16 + 8) s.x22) (s.sp.toNat - 16 - 16 - 16) s.x23) (s.sp.toNat - 16 - 16 - 16 + 8) s.x24) (s.sp.toNat - 16 - 16 - 16 - 16) s.x25) (s.sp.toNat - 16 - 16 - 16 - 16 + 8) s.x26, readable := s.readable, writable := s.writable, pc := 208, status := .running } : State) 31
-      = ({ x0 := pr + 48#64, x1 := l176, x2 := t175.val, x3 := inv, x4 := t73.val, x5 := t106.val, x6 := t139.val, x7 := t172.val, x8 := s.x8, x9 := t205.val, x10 := t225.val, x11 := t226.val, x12 := t227.val, x13 := t228.val, x14 := t229.val, x15 := t230.val, x16 := s.x16, x17 := s.x17, x18 := s.x18, x19 := s.x19, x20 := s.x20, x21 := s.x21, x22 := s.x22, x23 := s.x23, x24 := s.x24, x25 := s.x25, x26 := s.x26, x27 := s.x27, x28 := s.x28, x29 := s.x29, x30 := s.x30, sp := s.sp, nf := some t230.n, zf := some t230.z, cf := some t230.c, vf := some t230.v, mem := setMem (setMem (setMem (setMem (setMem (setMem (setMem (setMem (setMem (setMem (setMem (setMem (setMem (setMem (s.mem) (s.sp.toNat - 16) s.x19) (s.sp.toNat - 16 + 8) s.x20) (s.sp.toNat - 16 - 16) s.x21) (s.sp.toNat - 16 - 16 + 8) s.x22) (s.sp.toNat - 16 - 16 - 16) s.x23) (s.sp.toNat - 16 - 16 - 16 + 8) s.x24) (s.sp.toNat - 16 - 16 - 16 - 16) s.x25) (s.sp.toNat - 16 - 16 - 16 - 16 + 8) s.x26) pr.toNat t225.val) (pr.toNat + 8) t226.val) (pr.toNat + 16) t227.val) (pr.toNat + 24) t228.val) (pr.toNat + 32) t229.val) (pr.toNat + 40) t230.val, readable := s.readable, writable := s.writable, pc := s.x30.toNat, status := .halted } : State) := by
+      = ({ x0 := pr + 48#64, x1 := l176, x2 := t175.val, x3 := inv, x4 := t73.val, x5 := t106.val, x6 := t139.val, x7 := t172.val, x8 := s.x8, x9 := t205.val, x10 := t223.val, x11 := t226.val, x12 := t227.val, x13 := t228.val, x14 := t229.val, x15 := t230.val, x16 := s.x16, x17 := s.x17, x18 := s.x18, x19 := s.x19, x20 := s.x20, x21 := s.x21, x22 := s.x22, x23 := s.x23, x24 := s.x24, x25 := s.x25, x26 := s.x26, x27 := s.x27, x28 := s.x28, x29 := s.x29, x30 := s.x30, sp := s.sp, nf := some t230.n, zf := some t230.z, cf := some t230.c, vf := some t230.v, mem := setMem (setMem (setMem (setMem (setMem (setMem (setMem (setMem (setMem (setMem (setMem (setMem (setMem (setMem (s.mem) (s.sp.toNat - 16) s.x19) (s.sp.toNat - 16 + 8) s.x20) (s.sp.toNat - 16 - 16) s.x21) (s.sp.toNat - 16 - 16 + 8) s.x22) (s.sp.toNat - 16 - 16 - 16) s.x23) (s.sp.toNat - 16 - 16 - 16 + 8) s.x24) (s.sp.toNat - 16 - 16 - 16 - 16) s.x25) (s.sp.toNat - 16 - 16 - 16 - 16 + 8) s.x26) pr.toNat t223.val) (pr.toNat + 8) t226.val) (pr.toNat + 16) t227.val) (pr.toNat + 24) t228.val) (pr.toNat + 32) t229.val) (pr.toNat + 40) t230.val, readable := s.readable, writable := s.writable, pc := s.x30.toNat, status := .halted } : State) := by
   obtain ⟨rt0, rt1, rt2, rt3, rt4, rt5, rt6, rt7, rt8, rt9, rt10, rt11⟩ := ht.r12
   obtain ⟨⟨alrt0, alrt1, alrt2, alrt3, alrt4, alrt5, alrt6, alrt7, alrt8, alrt9, alrt10, alrt11⟩, frt1, frt2, frt3, frt4, frt5, frt6, frt7, frt8, frt9, frt10, frt11⟩ := ht.addr12
   obtain ⟨rp0, rp1, rp2, rp3, rp4, rp5⟩ := hp.r6
@@ -730,7 +730,7 @@ theorem mont_tail_hs0 (s : State) (pr pt pp inv : Word)
   replace hps := Hide.mk (And.intro room4 hps)
   simp only [OffStack] at hrs hts hps
   clear ht hp hr hstk
-  a64_sym [← ht208, ← ht211, ← ht214, ← ht217, ← ht220, ← ht223, ← ht225, ← ht226, ← ht227, ← ht228, ← ht229, ← ht230, hb209, hb210, hb212, hb213, hb215, hb216, hb218, hb219, hb221, hb222, hb224]
+  a64_sym [← ht208, ← ht211, ← ht214, ← ht217, ← ht220, ← ht223, ← ht226, ← ht227, ← ht228, ← ht229, ← ht230, hb209, hb210, hb212, hb213, hb215, hb216, hb218, hb219, hb221, hb222, hb224]
 
 
 set_option maxHeartbeats 1600000 in
@@ -748,7 +748,7 @@ theorem fpbase_384_montgomery_reduce_run (s : State) (pr pt pp inv : Word)
       (val (2 ^ 64) (limbs s'.mem pr.toNat 6) * 2 ^ 384) % val (2 ^ 64) (limbs s.mem pp.toNat 6)
         = val (2 ^ 64) (limbs s.mem pt.toNat 12) % val (2 ^ 64) (limbs s.mem pp.toNat 6) ∧
       (∀ k, ¬(pr.toNat ≤ k ∧ k < pr.toNat + 48) → ¬(s.sp.toNat - 64 ≤ k ∧ k < s.sp.toNat) → s'.mem k = s.mem k) := by
-  simp only [limbs_six, limbs_twelve, Nat.add_zero] at *
+  simp only [limbs_six, limbs_twelve, Nat.add_zero] at hinv hT h2P ⊢
   obtain ⟨w0, hw0⟩ : ∃ x, x = s.mem pt.toNat := ⟨_, rfl⟩
   obtain ⟨w1, hw1⟩ : ∃ x, x = s.mem (pt.toNat + 8) := ⟨_, rfl⟩
   obtain ⟨w2, hw2⟩ : ∃ x, x = s.mem (pt.toNat + 16) := ⟨_, rfl⟩
@@ -767,7 +767,7 @@ theorem fpbase_384_montgomery_reduce_run (s : State) (pr pt pp inv : Word)
   obtain ⟨p3, hp3⟩ : ∃ x, x = s.mem (pp.toNat + 24) := ⟨_, rfl⟩
   obtain ⟨p4, hp4⟩ : ∃ x, x = s.mem (pp.toNat + 32) := ⟨_, rfl⟩
   obtain ⟨p5, hp5⟩ : ∃ x, x = s.mem (pp.toNat + 40) := ⟨_, rfl⟩
-  simp only [← hw0, ← hw1, ← hw2, ← hw3, ← hw4, ← hw5, ← hw6, ← hw7, ← hw8, ← hw9, ← hw10, ← hw11, ← hp0, ← hp1, ← hp2, ← hp3, ← hp4, ← hp5] at *
+  simp only [← hw0, ← hw1, ← hw2, ← hw3, ← hw4, ← hw5, ← hw6, ← hw7, ← hw8, ← hw9, ← hw10, ← hw11, ← hp0, ← hp1, ← hp2, ← hp3, ← hp4, ← hp5] at hinv hT h2P ⊢
   obtain ⟨l13, hl13⟩ : ∃ x, x = mulLo w0 inv := ⟨_, rfl⟩
   obtain ⟨l14, hl14⟩ : ∃ x, x = mulLo l13 p0 := ⟨_, rfl⟩
   obtain ⟨h15, hh15⟩ : ∃ x, x = mulHi l13 p0 := ⟨_, rfl⟩
@@ -1266,10 +1266,10 @@ theorem fpbase_384_montgomery_reduce_run (s : State) (pr pt pp inv : Word)
                           simp only [val_cons, val_nil]
                           clear * - c5 c4 c3 c2 c1 c0 ir0 ip0 ir1 ip1 ir2 ip2 ir3 ip3 ir4 ip4 ir5 ip5
                           omega
-                        have hs := sub6_val ht225 ht226 ht227 ht228 ht229 ht230
+                        have hs := sub6_val ht223 ht226 ht227 ht228 ht229 ht230
                         simp only [Bool.not_true, Bool.toNat_false, Nat.add_zero] at hs
-                        have hres := X86.mont_result hR2 hRe (Or.inr (sub_no_borrow hs hle (X86.val6_lt t225.val t226.val t227.val t228.val t229.val t230.val)))
-                        have hq := mont_tail_hs0 s pr pt pp inv hr ht hp hstk hrs hts hps (t73 := t73) (t106 := t106) (t139 := t139) (t172 := t172) (t175 := t175) (t184 := t184) (t189 := t189) (t194 := t194) (t198 := t198) (t199 := t199) (t204 := t204) (t205 := t205) (t207 := t207) (t225 := t225) (t226 := t226) (t227 := t227) (t228 := t228) (t229 := t229) (t230 := t230) (p0 := p0) (p1 := p1) (p2 := p2) (p3 := p3) (p4 := p4) (p5 := p5) (l176 := l176) (l200 := l200) ht208 ht211 ht214 ht217 ht220 ht223 ht225 ht226 ht227 ht228 ht229 ht230 hb209 hb210 hb212 hb213 hb215 hb216 hb218 hb219 hb221 hb222 hb224
+                        have hres := X86.mont_result hR2 hRe (Or.inr (sub_no_borrow hs hle (X86.val6_lt t223.val t226.val t227.val t228.val t229.val t230.val)))
+                        have hq := mont_tail_hs0 s pr pt pp inv hr ht hp hstk hrs hts hps (t73 := t73) (t106 := t106) (t139 := t139) (t172 := t172) (t175 := t175) (t184 := t184) (t189 := t189) (t194 := t194) (t198 := t198) (t199 := t199) (t204 := t204) (t205 := t205) (t207 := t207) (t223 := t223) (t226 := t226) (t227 := t227) (t228 := t228) (t229 := t229) (t230 := t230) (p0 := p0) (p1 := p1) (p2 := p2) (p3 := p3) (p4 := p4) (p5 := p5) (l176 := l176) (l200 := l200) ht208 ht211 ht214 ht217 ht220 ht223 ht226 ht227 ht228 ht229 ht230 hb209 hb210 hb212 hb213 hb215 hb216 hb218 hb219 hb221 hb222 hb224
                         refine ⟨_, run_fuel (run_chain hpre hq) rfl 239 (by omega), ⟨rfl, rfl, rfl, rfl, rfl, rfl, rfl, rfl, rfl, rfl, rfl, rfl, rfl, rfl, rfl⟩, ?_, ?_, ?_⟩
                         · simp only; a64_mem; exact hres.1
                         · simp only; a64_mem; exact hres.2
